@@ -378,7 +378,13 @@ func c08Boundary(c *Ctx) {
 				}
 			case *ast.BinaryExpr:
 				_, op, other, isCmp := core.Oriented(x, func(e ast.Expr) bool {
-					return strings.Contains(strings.ToLower(core.ExprStr(e)), "deadlinenano")
+					// the deadline itself (a variable or field), not an expression built from it: `now > deadline + window`
+					// is the stale-window test, a different comparison
+					switch ast.Unparen(e).(type) {
+					case *ast.Ident, *ast.SelectorExpr:
+						return strings.Contains(strings.ToLower(core.ExprStr(e)), "deadlinenano")
+					}
+					return false
 				})
 				if !isCmp || strings.ToLower(core.ExprStr(other)) != "nownano" {
 					return true
